@@ -806,6 +806,12 @@ class Engine:
             return Opt(fresh(name + '.isnone', BOOL), fresh(name))
         if t == 'opt_real':
             return Opt(fresh(name + '.isnone', BOOL), fresh(name, REAL))
+        if t == 'td':
+            return TD(fresh(name + '.us'))
+        if t == 'dt':
+            return DT(fresh(name + '.us'))
+        if t == 'none':
+            return None
         if isinstance(v, bool):
             return fresh(name, BOOL)
         if isinstance(v, int):
@@ -1744,7 +1750,9 @@ class Engine:
                 for p in parts[1:-1]:
                     obj = obj.f[p]
                 if isinstance(obj, Obj):
-                    obj.f[parts[-1]] = self.havoc_value(obj.f[parts[-1]], m, Loop([], [], types=getattr(cc, 'mod_types', {})))
+                    if parts[-1] not in obj.f and m not in cc.mod_types:
+                        raise Unsupported(f'call of {cc.qual}: it creates {m}; declare its type in mod_types')
+                    obj.f[parts[-1]] = self.havoc_value(obj.f.get(parts[-1]), m, Loop([], [], types=cc.mod_types))
                 elif hasattr(obj, 'havoc_attr'):
                     obj.havoc_attr(self, parts[-1], m)
             result = cc.result(self, frame) if cc.result else None
